@@ -82,6 +82,7 @@ fn val_str(v: &Val) -> String {
         Val::A(a) => format!("a:{}", util::hex(a)),
         Val::C(p, c) => format!("c:{p}:{c}"),
         Val::Ref(r) => format!("ref:{r}"),
+        Val::RefO(st, r) => format!("ref:{st}:{r}"),
     }
 }
 
@@ -365,6 +366,10 @@ pub fn expected_dump(case: &ContCase, created: &CreatedCont, plan: &Plan) -> Dum
             for p in &props {
                 let s = match em.vals.get(p) {
                     Some(Val::Ref(t)) => val_str(&resolved_ref(st, p, inverse[*t])),
+                    Some(Val::RefO(ts, t)) => {
+                        let pos = orders[*ts].iter().position(|e| e == t).unwrap_or(0);
+                        val_str(&Val::U(pos as u64))
+                    }
                     Some(v) => val_str(v),
                     None => "absent".into(),
                 };
